@@ -40,12 +40,21 @@ def gen_case(rng, tier, avoid):
             n = len(p) if isinstance(p, str) else len(list(p.values())[0]) // 2
             if n + 3 + len(nm) < 12:
                 p = {'$bytes': rng.randbytes(12).hex()}
-        spec.emit({'op': 'nf_data', 'lf': lfi['lf'], 'nf': {'$ref': h}, 'data': p})
+        spec.emit({'op': 'nf_data', 'lf': lfi['lf'], 'nf': {'$ref': h}, 'data': p, 'h': spec.h('nfr')})
     ops = spec.ops
+    second = None
+    if rng.random() < 0.25:
+        # write, then replace a payload (and / or rename its object), then write again: the second file carries what is there now
+        recs = [op for op in spec.ops if op.get('op') == 'nf_data']
+        second = []
+        for op in rng.sample(recs, min(len(recs), rng.choice([1, 2]))):
+            second.append({'op': 'set_prop', 'h': op['h'], 'prop': 'data', 'v': gen.payload(rng, cap, tiny_ok=tiny_ok)})
+        if rng.random() < 0.4:
+            second.append({'op': 'set_prop', 'h': nfs[0][0], 'prop': 'name', 'v': 'RENAMED-NF'})
     if rng.random() < 0.2:
         ops = gen.noise_file(rng) + ops
     return {'scenario': {'env': {'tz': 'UTC'}, 'history': ops},
-            'params': {'ocs': gen.pick(rng, C.sym_ocs_choices(rng)[:3] + C.sym_ocs_choices(rng)[7:10])}}
+            'params': {'ocs': gen.pick(rng, C.sym_ocs_choices(rng)[:3] + C.sym_ocs_choices(rng)[7:10]), 'second': second}}
 
 
 def check_case(case, ex):
@@ -82,4 +91,15 @@ def check_case(case, ex):
         if a != b:
             out.append(C.V('C16.payload_differs', {'what': 'record_length_invariance'}, n_small=len(a), n_big=len(b)))
     stats['state_sigs'].append('cap%d|%s|n%d|fl%d' % (cap if cap < 250 else 999, C.ocs_class(sym), min(len(sizes), 9), min(nfl, 9)))
+    if case['params'].get('second'):
+        sc3, res3 = C.run(case, ex, [C.wop(fid, output_chunk_size=ocs, path='first.dlis')] + case['params']['second'] +
+                          [C.wop(fid, output_chunk_size=ocs, path='second.dlis')], stats)
+        m3, dec3, st3 = C.model_and_decode(sc3, res3)
+        if dec3 is not None:
+            v3, _ = I.payloads(m3, dec3, fid, cap=cap)
+            for x in v3:
+                x['fp']['write_no'] = 2
+            out.extend(v3)
+            stats['nontrivial'] = True
+            C.bump(stats['probes'], 'rewritten_after_payload_change')
     return {'violations': out, 'stats': stats}
